@@ -20,6 +20,7 @@ import (
 	"fmt"
 	"io"
 	"os"
+	"reflect"
 	"strconv"
 	"strings"
 	"sync"
@@ -351,6 +352,14 @@ func (t *Terminfo) TParm(s string, p ...interface{}) string {
 	// later to skip checks
 	for i := 0; i < len(params) && i < len(p); i++ {
 		params[i] = p[i]
+		// the machine works on int; a number held in another integer
+		// type is that number, not zero
+		switch rv := reflect.ValueOf(p[i]); rv.Kind() {
+		case reflect.Int8, reflect.Int16, reflect.Int32, reflect.Int64, reflect.Int:
+			params[i] = int(rv.Int())
+		case reflect.Uint8, reflect.Uint16, reflect.Uint32, reflect.Uint64, reflect.Uint:
+			params[i] = int(rv.Uint())
+		}
 	}
 
 	const (
